@@ -246,6 +246,8 @@ def apply(root, fns, mode):
                 if bl < len(lines) and lines[bl].rstrip().endswith("{") and "namespace" not in lines[bl] and not f.get("constexpr"):
                     lines[bl] = lines[bl].rstrip() + " [[maybe_unused]] const int verif_pad_nv = 0;"
                     total += 1
+            if mode == "spread":
+                pass          # done after the loop, bottom-up (inserting lines moves everything below)
             if mode == "emplace":
                 # v.push_back(x) -> v.emplace_back(x) for one-line calls whose argument is not a braced list
                 for i_ in range(f["l"] - 1, min(f["l_end"], len(lines))):
@@ -259,6 +261,16 @@ def apply(root, fns, mode):
                 total += flip_in_range(lines, f["l"], f["l_end"])
             if mode == "braces":
                 total += braces_in_range(lines, f["l"], f["l_end"])
+        if mode == "spread":
+            for f in sorted(fl, key=lambda g: -(g.get("l") or 0)):
+                if not f.get("l_end") or not isinstance(f.get("body"), dict) or not f["body"].get("l"):
+                    continue
+                lo, hi = f["body"]["l"], min(f["l_end"], len(lines)) - 1
+                for i_ in range(hi - 1, lo, -1):
+                    prev, cur = lines[i_ - 1].rstrip(), lines[i_].lstrip()
+                    if prev.endswith((";", "{", "}")) and not prev.endswith("\\") and re.match(r"[A-Za-z_]", cur) and not cur.startswith(("else", "catch", "case", "default", "while")):
+                        lines[i_:i_] = ["// verif: spread"]
+                        total += 1
         if mode == "shift":
             # move every line of the file down: nothing may depend on absolute positions
             k = 1 if lines and lines[0].startswith("/*") is False else 0
